@@ -973,6 +973,7 @@ func c13ClientX(e *Env, forC14 bool, forced *c13Forced) {
 		w.sc.ArmWriteFault(&WriteFault{Kind: "stall", After: 1 << 20})
 		e.Fault("dwa-before-write-returns")
 	}
+	earlyTerm := false
 	stalledSince := time.Duration(-1)
 	appStalled := forced != nil // (the sweep does not stall application writes)
 	type pend struct {
@@ -1107,6 +1108,11 @@ func c13ClientX(e *Env, forC14 bool, forced *c13Forced) {
 				}
 			case "silent":
 				e.Fault("peer-silent")
+				if forC14 && r == 0 && w.R >= 1 && t.Chance(1, 2) {
+					// the connection ends while this DWR is still waiting for its answer
+					earlyTerm = true
+					e.Probe("terminated-with-dwr-outstanding")
+				}
 				dwaDue := false
 				for _, o := range w.outbox {
 					if strings.HasPrefix(o.what, "dwa") {
@@ -1142,7 +1148,7 @@ func c13ClientX(e *Env, forC14 bool, forced *c13Forced) {
 				}
 			}
 		}
-		if e.Failed() {
+		if e.Failed() || earlyTerm {
 			break
 		}
 		if cl, at := w.sc.ClosedAt(); cl {
@@ -1196,7 +1202,7 @@ func c13ClientX(e *Env, forC14 bool, forced *c13Forced) {
 			}
 		}
 	}
-	if !e.Failed() {
+	if !e.Failed() && !earlyTerm {
 		c13Check(w, plans, txs, hsAt, closedAt, failedAt)
 	}
 	// liveness: while the connection is open the watchdog keeps probing
